@@ -364,12 +364,29 @@ class C10:
             site = f"{file}:{s.node.lineno} {fname}"
             ig = ("param", "ignore_errors")
             calls = [e for e in s.calls if e.term[1] == ("global", conv, "func")]
+            want_iter = ("param", item_param) if item_param else ("attr", ("param", "annot"), "sound_events")
+            if not calls:
+                # the loop may live in a helper of the same module (a generator of the converted elements): read it there, with the
+                # helper's parameters standing for what the function hands over
+                for he in s.calls:
+                    if he.term[1][0] == "global" and he.term[1][2] == "func" and he.term[1][1].startswith(modname + ":"):
+                        try:
+                            hs = ctx.summ.of_func(modname, he.term[1][1].split(":")[1])
+                        except Exception:  # noqa: BLE001
+                            continue
+                        if any(e2.term[1] == ("global", conv, "func") for e2 in hs.calls):
+                            b_, _, _, _ = bind_args(he.term, hs.params)
+                            inv = {v_: ("param", p_) for p_, v_ in b_.items()}
+                            if want_iter in inv and ig in inv:
+                                s, want_iter, ig = hs, inv[want_iter], inv[ig]
+                                calls = [e for e in s.calls if e.term[1] == ("global", conv, "func")]
+                                fname = f"{fname} (through {hs.node.name})"
+                            break
             if len(calls) != 1 or not calls[0].loops or not calls[0].handlers:
                 ctx.bad("R10.4", file, fname, "try: convert(...) except ValueError", "the per-element conversion is not inside a try block within the element loop", s.node.lineno)
                 continue
             c = calls[0]
             L = s.loops[c.loops[-1]]
-            want_iter = ("param", item_param) if item_param else ("attr", ("param", "annot"), "sound_events")
             if L.iter != want_iter or L.conds or L.kind != "for":
                 ctx.bad("R10.5", file, fname, f"for ... in {show(L.iter)[:50]}",
                         f"elements must be converted by one in-order, unfiltered loop over {show(want_iter)} (found {show(L.iter)[:60]})", c.lineno)
@@ -400,8 +417,16 @@ class C10:
                 ctx.bad("R10.4", file, fname, f"handler: continue under {[show(e.live)[-40:] for e in cont]}, raise under {[show(e.live)[-40:] for e in rer]}",
                         "on an unconvertible event the loop must skip it iff ignore_errors and re-raise otherwise", c.lineno)
             apps = [e for e in s.calls if e.term[1][0] == "attr" and e.term[1][2] == "append" and L.id in e.loops and not e.in_handler]
+            if not apps and s.is_generator:
+                # a generator hands each converted element on with `yield`
+                ys_ = [e for e in s.yields if L.id in e.loops and not e.in_handler]
+                if len(ys_) == 1 and ys_[0].term == c.term and not ys_[0].handlers or (len(ys_) == 1 and ys_[0].term == c.term and ys_[0].handlers == c.handlers):
+                    ctx.ok("R10.4", f"{file}:{ys_[0].lineno} {fname}", "one yield per converted element")
+                    continue
             success_only = apps and (falls == FALSE or ("completed", tid) in conjuncts(apps[0].live))
-            if len(apps) == 1 and not apps[0].in_handler and not apps[0].handlers and success_only:
+            # `try: out.append(convert(x))`: the append runs only when the conversion returned
+            in_body = len(apps) == 1 and apps[0].handlers == c.handlers and len(apps[0].term[2]) == 1 and apps[0].term[2][0] == c.term
+            if len(apps) == 1 and not apps[0].in_handler and (not apps[0].handlers or in_body) and (success_only or in_body):
                 ctx.ok("R10.4", f"{file}:{apps[0].lineno} {fname}", "one append per converted element, outside the handler")
             else:
                 ctx.bad("R10.4", file, fname, f"{len(apps)} appends", "exactly one append per successfully converted element, outside the try/except", c.lineno)
@@ -476,8 +501,13 @@ class C10:
         okd = True
         for val, want_kw in (("bbox", "bboxes"), ("seq", "seq"), ("other", None)):
             env = {fmt: val}
-            rets = [r for r in s.returns if _truth(peval(r.live, env)) is not False]
-            rais = [r for r in s.raises if not r.in_handler and _truth(peval(r.live, env)) is not False]
+            # a lookup in a table of exporters guarded by `except KeyError`: the handler runs for a format the table does not have
+            for e_ in s.events:
+                for x in walk(e_.live):
+                    if x[0] == "caught" and any(n_.split(".")[-1] in ("KeyError", "LookupError") for n_ in x[2]):
+                        env[x] = val not in ("bbox", "seq")
+            rets = [r for r in s.returns if _truth(peval(r.live, env)) is not False and r.term[0] != "error"]  # (a failed table lookup is no result)
+            rais = [r for r in s.raises if _truth(peval(r.live, env)) is not False and (not r.in_handler or (any(x in env for x in walk(r.live) if x[0] == "caught") and not any(x[0] == "caught" and x not in env for x in walk(r.live))))]
             und = [x for x in rets + rais if _truth(peval(x.live, env)) is None]
             if und:
                 ctx.undec("R10.9", site, f"annotation_fmt={val!r}: path condition not decided by the format alone: {show(und[0].live)[:70]}")
@@ -497,6 +527,17 @@ class C10:
                         f"it must return crowsetta.Annotation({want_kw}=...) built by the {'bounding box' if want_kw == 'bboxes' else 'sequence'} exporter",
                         s.node.lineno, witness={"annotation_fmt": val})
                 okd = False
+        # the options that decide "skips or raises on unconvertible events as requested" reach the sequence exporter
+        sq = [x for r in s.returns for x in walk(r.term) if x[0] == "call" and x[1] == ("global", f"{SEQ}:sequence_from_annotations", "func")]
+        if sq:
+            sqs = ctx.summ.of_func(SEQ, "sequence_from_annotations")
+            b_, _, _, _ = bind_args(sq[0], sqs.params)
+            for opt, src in (("ignore_errors", ("param", "ignore_errors")), ("cast_to_segment", ("param", "cast_geometry"))):
+                if opt in sqs.params and b_.get(opt) != src:
+                    ctx.bad("R10.9", file, "annotation_from_clip_annotation", f"sequence_from_annotations(... {opt}={show(b_.get(opt, NONE))})",
+                            f"the 'seq' export does not hand its `{src[1]}` to sequence_from_annotations (receives {show(b_.get(opt, NONE)) if opt in b_ else 'the default'}): "
+                            f"unconvertible events are skipped or raised regardless of what the caller asked for", s.node.lineno)
+                    okd = False
         if okd:
             ctx.ok("R10.9", site, "'bbox' -> Annotation(bboxes=...), 'seq' -> Annotation(seq=...), anything else rejected")
         s = ctx.summ.of_func(ANN, "annotation_to_clip_annotation")
